@@ -7,7 +7,7 @@ set -u
 export GOFLAGS=-mod=mod GOPROXY=off GOSUMDB=off GOTOOLCHAIN=local
 P=$1; K=$2; shift 2
 CHECKS=${*:-$P}
-SRC=/tmp/seed/$P/out
+SRC=${SEEDROOT:-/tmp/seed}/$P/out
 W=$(mktemp -d /tmp/wseed.XXXXXX); rmdir "$W"
 git -C /repo worktree add --detach "$W" >/dev/null 2>&1 || { echo "worktree failed"; exit 2; }
 cleanup() { git -C /repo worktree remove --force "$W" >/dev/null 2>&1; rm -rf "$W"; }
